@@ -140,6 +140,50 @@ second line
 00:00:04.000 --> 00:00:05.000 line:50% position:100%,line-right
 <u>u</u>
 """
+# nested divisions, paragraphs that never end (the last snapshot is unbounded), two of them active together, one region and none
+TTML_4 = b"""<?xml version="1.0" encoding="UTF-8"?>
+<tt xml:lang="en" xmlns="http://www.w3.org/ns/ttml" xmlns:tts="http://www.w3.org/ns/ttml#styling">
+ <head><layout><region xml:id="r1" tts:extent="80% 20%" tts:origin="10% 70%"/><region xml:id="r2" tts:extent="80% 20%" tts:origin="10% 10%"/></layout></head>
+ <body><div region="r1"><div>
+  <p begin="1s">first, open ended</p>
+  <p begin="2s">second, open ended<br/>two lines</p>
+ </div></div>
+ </body>
+</tt>
+"""
+TTML_5 = b"""<?xml version="1.0" encoding="UTF-8"?>
+<tt xml:lang="en" xmlns="http://www.w3.org/ns/ttml" xmlns:tts="http://www.w3.org/ns/ttml#styling">
+ <head><layout><region xml:id="r1" tts:extent="80% 20%" tts:origin="10% 70%"/><region xml:id="r2" tts:extent="80% 20%" tts:origin="10% 10%"/></layout></head>
+ <body><div><div><div region="r2"><p begin="3s"><span>third</span></p><div><p begin="3s" end="4s">bounded</p><p begin="3.5s">open</p></div></div></div><p>no region</p></div>
+ <div region="r1"><p begin="1s" end="2s">only child</p></div><div region="r1"/>
+ </body>
+</tt>
+"""
+# ruby markup in all the places it can turn up: nested, inside other tags, unbalanced, stray annotation tags
+VTT_2 = """WEBVTT
+
+00:00:00.000 --> 00:00:01.000
+<ruby>\u6f22<rt>kan</rt>\u5b57<rt>ji</rt></ruby> after
+
+00:00:01.000 --> 00:00:02.000
+<ruby><ruby>\u6f22\u5b57<rt>kanji</rt></ruby> text</ruby> tail
+
+00:00:02.000 --> 00:00:03.000
+<ruby>a<ruby>b</ruby><rt>c</rt></ruby>
+
+00:00:03.000 --> 00:00:04.000
+<ruby>x<rt>y<ruby>z</ruby>w</rt>v<rt>u</rt></ruby>
+
+00:00:04.000 --> 00:00:05.000
+<b><ruby>in bold<rt>t</rt></ruby></b> <ruby><i>it<ruby>n</ruby>more</i><rt>t</rt>end</ruby>
+
+00:00:05.000 --> 00:00:06.000
+stray </ruby> <rt>annotation</rt> <ruby>unclosed <rt>anno
+
+00:00:06.000 --> 00:00:07.000
+<ruby>only base</ruby> <ruby><rt>only text</rt></ruby> <ruby></ruby>
+""".encode("utf-8")
+
 SCC_1 = b"""Scenarist_SCC V1.0
 
 00:00:01:00	9420 9420 9470 9470 c8e5 ecec ef80 942c 942c 942f 942f
@@ -150,9 +194,32 @@ SCC_1 = b"""Scenarist_SCC V1.0
 """
 
 
+def stl_hand():
+  """An EBU STL file with everything the TTI header can express: a cumulative set that straddles the programme start
+  (its first member begins before TCP), a regular set, an extension-block pair, a comment, user data, double height."""
+  from .. import stl_build as B
+  def blk(sn, cs, tci, tco, text, ebn=0xFF, cf=0, vp=20, jc=2):
+    return {"sgn": 0, "sn": sn, "ebn": ebn, "cs": cs, "tci": tci, "tco": tco, "vp": vp, "jc": jc, "cf": cf, "tf": list(text)}
+  blocks = [
+    blk(0, 1, [9, 59, 59, 0], [10, 0, 4, 0], b"set one, first"),
+    blk(1, 2, [10, 0, 1, 0], [10, 0, 4, 0], b"set one, second"),
+    blk(2, 3, [10, 0, 2, 0], [10, 0, 4, 0], b"\x0d\x0d\x0bset one, third\x0a\x0a"),
+    blk(3, 0, [10, 0, 5, 0], [10, 0, 6, 12], b"\x80plain\x81 \x82under\x83\x8a\x07white \x01red", vp=18, jc=1),
+    blk(4, 0, [10, 0, 7, 0], [10, 0, 8, 0], b"extended, part one ", ebn=0),
+    blk(4, 0, [10, 0, 7, 0], [10, 0, 8, 0], b"part two", ebn=0xFF),
+    blk(5, 0, [10, 0, 8, 0], [10, 0, 9, 0], b"a comment", cf=1),
+    blk(6, 0, [0, 0, 0, 0], [0, 0, 0, 0], b"user data", ebn=0xFE),
+    blk(7, 1, [10, 0, 10, 0], [10, 0, 12, 0], b"set two, first", vp=2),
+    blk(8, 3, [10, 0, 11, 0], [10, 0, 12, 0], b"set two, last", vp=4),
+    blk(9, 0, [10, 0, 13, 0], [10, 0, 13, 1], b"\xc1e\xc8u \xa4 last", vp=22, jc=3),
+  ]
+  return B.build_file({"dfc": "STL25.01", "dsc": "1", "cct": "00", "tcp": [10, 0, 0, 0], "mnr": 23}, blocks)
+
+
 def seeds():
   """format -> list of (name, bytes)."""
-  out = {"ttml": [("hand1", TTML_1), ("hand2_ruby", TTML_2), ("hand3_cycles_subms", TTML_3)], "srt": [("hand1", SRT_1)], "vtt": [("hand1", VTT_1)], "scc": [("hand1", SCC_1)], "stl": []}
+  out = {"ttml": [("hand1", TTML_1), ("hand2_ruby", TTML_2), ("hand3_cycles_subms", TTML_3), ("hand4_nested_open", TTML_4), ("hand5_nested_regions", TTML_5)], "srt": [("hand1", SRT_1)],
+         "vtt": [("hand1", VTT_1), ("hand2_ruby", VTT_2)], "scc": [("hand1", SCC_1)], "stl": [("hand_cumulative", stl_hand())]}
   for f in sorted(glob.glob(RES + "/ttml/*.ttml"))[:4]:
     out["ttml"].append((os.path.basename(f), open(f, "rb").read()))
   for f in sorted(glob.glob(RES + "/scc/*.scc"))[:3]:
@@ -253,6 +320,9 @@ def run(ctx):
     for k, (name, data) in enumerate(files):
       rid += 1
       jobs.append((fmt, name, data, [], seedbase + rid, None, rid))               # the unmodified file
+      for cfg in (cfgs.get(fmt, [None])[1:] if k == 0 else []):                   # ... and under the other reader configuration
+        rid += 1
+        jobs.append((fmt, name, data, [], seedbase + rid, cfg, rid))
       use_singles = singles if (thorough or k < 2) else ctx.rng.sample(singles, 20)
       for fs in use_singles:
         for cfg in (cfgs.get(fmt, [None]) if k == 0 else [None]):
